@@ -191,6 +191,27 @@ def serveAll (allow : List (List Char)) (perWindow : Nat) : LimState → List Ev
     let r := serve allow perWindow lim e.now e.caller e.rq e.res
     r.2 :: serveAll allow perWindow r.1 es
 
+/-! ### the configured allow-list: `_normalise_principals` -/
+
+def isSpace (c : Char) : Bool := Gen.C36.spaceRanges.any fun r => r.1 ≤ c.toNat && c.toNat ≤ r.2
+
+/-- `str.strip()` -/
+def pyStrip (s : List Char) : List Char := ((s.dropWhile isSpace).reverse.dropWhile isSpace).reverse
+
+/-- the element expression of the generator -/
+def allowElemOf (p : List Char) : List Char := if Gen.C36.allowElem = "strip" then pyStrip p else p
+
+/-- the generator's `if` clause -/
+def allowKeeps (p : List Char) : Bool :=
+  if Gen.C36.allowFilter = "raw" then !p.isEmpty
+  else if Gen.C36.allowFilter = "stripped" then !(pyStrip p).isEmpty
+  else true
+
+/-- `_normalise_principals(introspect_principals)`: the effective allow-list (`none` = `ValueError` at construction) -/
+def configure (configured : List (List Char)) : Option (List (List Char)) :=
+  let a := (configured.filter allowKeeps).map allowElemOf
+  if a.isEmpty && Gen.C36.allowEmptyRaises then none else some a
+
 /-- `_IntrospectionDisabledResource.on_post` -/
 def disabledPost (_caller : Caller) (_rq : Req) : Response :=
   refuse Gen.C36.disabledStatus Gen.C36.disabledError
